@@ -256,6 +256,95 @@ theorem c01store_gen_outgoing_edges (enc : CausalGraph.Node → Nat) (ops : List
     rw [C08Gen.gen_run _ Model.UGraph.wf_init]; exact sim_contains (sim_build enc ops) a
   rw [hc]
 
+/-! ## the stored values -/
+def encMap (enc : CausalGraph.Node → Nat) (m : List (Nat × CausalGraph.Node)) : List (Nat × Nat) := m.map (fun e => (e.1, enc e.2))
+
+theorem nodes_addNode {c u} (h : Sim c u) (enc : CausalGraph.Node → Nat) (nd : CausalGraph.Node)
+    (hn : u.nodeMap = encMap enc c.nodeMap) :
+    (u.addNode (enc nd)).1.nodeMap = encMap enc (CausalGraph.addNode c nd).1.nodeMap := by
+  have hadd : u.ids.add = ({ u.ids with upper := u.ids.upper + 1 }, u.ids.upper) := by
+    unfold IdStore.add; rw [h.noRemoved]; simp [h.noRemoved]
+  unfold Model.UGraph.addNode CausalGraph.addNode
+  rw [hadd]
+  have hf := filter_fresh u.nodeMap u.ids.upper h.keys
+  simp only [mInsert, hf, encMap, List.map_cons]
+  rw [hn, h.upper]; rfl
+
+theorem nodes_step {c u} (h : Sim c u) (enc : CausalGraph.Node → Nat) (op : CausalGraph.Op)
+    (hn : u.nodeMap = encMap enc c.nodeMap) :
+    (Model.UGraph.step .repaired u (toU enc op)).1.nodeMap = encMap enc (CausalGraph.step c op).nodeMap := by
+  cases op with
+  | add nd => exact nodes_addNode h enc nd hn
+  | root nd =>
+    have := nodes_addNode h enc nd hn
+    simpa [toU, Model.UGraph.step, CausalGraph.step, Model.UGraph.addRoot, CausalGraph.addRoot] using this
+  | edge a b w =>
+    have hs := (sim_addEdge h a b w).1
+    show (u.addEdgeW a b w).1.nodeMap = encMap enc ((CausalGraph.addEdge c a b w).getD c).nodeMap
+    have hpet : ∀ k l g', petAddEdge u k l w = some g' → g'.nodeMap = u.nodeMap := by
+      intro k l g' hp
+      unfold petAddEdge at hp
+      split at hp
+      · cases hp
+      · cases hp; rfl
+    have h1 : (u.addEdgeW a b w).1.nodeMap = u.nodeMap := by
+      unfold Model.UGraph.addEdgeW
+      split; · rfl
+      split; · rfl
+      split; · rfl
+      split
+      · split
+        · rename_i hp; exact hpet _ _ _ hp
+        · rfl
+      · rfl
+    have h2 : ((CausalGraph.addEdge c a b w).getD c).nodeMap = c.nodeMap := by
+      unfold CausalGraph.addEdge
+      repeat' split
+      all_goals rfl
+    rw [h1, h2, hn]
+
+theorem nodes_build (enc : CausalGraph.Node → Nat) (ops : List CausalGraph.Op) :
+    (Model.UGraph.run .repaired init (ops.map (toU enc))).1.nodeMap = encMap enc (CausalGraph.build ops).nodeMap := by
+  rw [run_foldl]
+  unfold CausalGraph.build
+  suffices ∀ c u, Sim c u → u.nodeMap = encMap enc c.nodeMap →
+      ((ops.map (toU enc)).foldl (fun g op => (Model.UGraph.step .repaired g op).1) u).nodeMap =
+        encMap enc (ops.foldl CausalGraph.step c).nodeMap from this _ _ sim_init rfl
+  induction ops with
+  | nil => intro c u _ hn; exact hn
+  | cons op rest ih =>
+    intro c u h hn
+    simp only [List.map_cons, List.foldl_cons]
+    exact ih _ _ (sim_step h enc op) (nodes_step h enc op hn)
+
+theorem mGet_encMap (enc : CausalGraph.Node → Nat) (m : List (Nat × CausalGraph.Node)) (i : Nat) :
+    mGet (encMap enc m) i = (m.lookup i).map enc := by
+  induction m with
+  | nil => rfl
+  | cons e m ih =>
+    obtain ⟨k, nd⟩ := e
+    unfold mGet encMap at *
+    simp only [List.map_cons, List.find?_cons, List.lookup_cons]
+    by_cases hi : k = i
+    · subst hi; simp
+    · have h1 : (i == k) = false := by simpa using fun h => hi h.symm
+      have h2 : (k == i) = false := by simpa using hi
+      simp only [h1, h2]
+      exact ih
+
+open Gen.UGraphFns in
+/-- the generated `get_node` on the graph the generated mutators reach returns the (encoded) node the causal-graph model's `getNode`
+    returns — `None` exactly for an index that is not contained -/
+theorem c01store_gen_get_node (enc : CausalGraph.Node → Nat) (ops : List CausalGraph.Op) (i : Nat) :
+    get_node (C08Gen.genRun init (ops.map (toU enc))).1 i = some ((CausalGraph.getNode (CausalGraph.build ops) i).map enc) := by
+  have hwf := C08Gen.c08gen_reachable_wf (ops.map (toU enc))
+  rw [C08Gen.get_node_eq hwf, C08Gen.gen_run _ Model.UGraph.wf_init]
+  have h := sim_build enc ops
+  unfold Model.UGraph.getNode CausalGraph.getNode
+  rw [sim_contains h, h.index, nodes_build]
+  unfold CausalGraph.contains
+  cases c : (CausalGraph.build ops).indexMap.contains i <;> simp [mGet_encMap]
+
 /-- non-vacuity: root, two nodes, an accepted edge, a refused duplicate and a refused edge to an absent node -/
 example :
     let ops : List CausalGraph.Op := [.root ⟨0, .plain⟩, .add ⟨1, .inv⟩, .add ⟨2, .plain⟩, .edge 0 1 4, .edge 0 1 9, .edge 1 7 0]
